@@ -29,10 +29,10 @@ UNKNOWN = "Request does not match any known command"
 
 # (name, kind, pattern, interrupt, argtypes, replies)
 COMMAND_SETS = [
-    [("c0", "bytes", rb"A", False, [], [b"a"]),
+    [("c0", "bytes", rb"A", False, [], [b""]),
      ("c1", "bytes", rb"(\d)", True, [int], [b"n"]),
      ("c2", "text", r"B", True, [], [b"b"]),
-     ("c3", "text", r"(\w)", False, [str], [b"w", None, b"w2"])],
+     ("c3", "text", r"(\w)", False, [str], [b"w", None, b"", b"w2"])],
     [("c0", "text", r"P=(\d+)", True, [int], [b"ok"]),
      ("c1", "text", r"P\?", False, [], [b"p"]),
      ("c2", "bytes", rb"\xff(.)", True, [bytes], [b"raw"]),
